@@ -227,14 +227,13 @@ theorem setParent_restore (ks : List String) (c : String) (l : List NObj)
   · simp [hk]
 
 /-- the arena facts `extract_inject_id` needs about the container `c` (they hold for every compiled graph:
-    keys are AbsIDs, `ChildrenArray` and `Parent` agree, a container is not its own descendant) -/
+    keys are AbsIDs, `ChildrenArray` and `Parent` agree) -/
 structure WFAt (g : NGraph) (c : String) : Prop where
   objKeys : (g.objs.map (fun o : NObj => o.key)).Nodup
   edgeKeys : (g.edges.map (fun e : NEdge => e.key)).Nodup
   rootKeys : g.rootKids.Nodup
   cne : c ≠ ""
   kidsParent : ∀ o ∈ g.objs, o.key ∈ kidsOf g.objs c → o.parent = c
-  selfNotNested : isNested g c false c = false
 
 /-- **extract_inject_id.** Extracting the contents of `c`, injecting them back, re-appending the external
     edges and restoring the saved order gives back the arena: same object records (key, parent, children) in the
@@ -271,7 +270,7 @@ def exampleGraph : NGraph :=
 
 example : WFAt exampleGraph "a" :=
   { objKeys := by decide, edgeKeys := by decide, rootKeys := by decide, cne := by decide,
-    kidsParent := by decide, selfNotNested := by decide }
+    kidsParent := by decide }
 
 example : (extract exampleGraph "a" false).nested.objs.map (·.key) = ["a.x", "a.y"] := by decide
 example : (extract exampleGraph "a" false).external.map (·.key) = ["e1"] := by decide
